@@ -16,8 +16,9 @@ every nesting depth, every input list, every flag set of the property, every fue
 element library: nothing in the proofs looks inside `CoreLib.elemFn`, so they cover every element whose table
 entry is the `process_element` boilerplate of a first-order function (237 entries of the current table).
 
-Stage reached: the closure-free fragment (literals, first-order elements, variables, `if` chains, `for`, `while`,
-break / continue, the implicit output).  The full statement — the same for lambdas, named functions, list
+Stage reached: the closure-free fragment (literals, first-order elements, the 21 hand-written stack / context /
+input / register / printing templates of the closed core, variables, `if` chains, `for`, `while`, break / continue,
+the implicit output).  The full statement — the same for lambdas, named functions, list
 literals and modifiers — is `compile_correct` below as a comment; what is proved is named `…_partial_no_closures`.
 The remaining constructs are executable in both interpreters and compared on every generated program by the
 `py-vs-ref`, `py` and `ref` streams of the check.
@@ -87,15 +88,24 @@ theorem compile_correct_partial_no_closures (cfg : Cfg) (env : TEnv) (hE : cfg.e
       | cont => simp at hr
       | ret v => simp at hr
 
-/-- the fragment is not empty: `3(←a 2%[+|-X]){←a|←a‹→a}`: an `if` with a break inside a `for`, and a `while` -/
+/-- the fragment is not empty: `3(n2%[+|-X]:,){←a|←a‹→a}` — `n`, a dyad, an `if` with a break inside a `for`,
+    duplicate and print, then a `while` on a variable -/
 example : Frag2 Gen.elements
     [ .generic ⟨.number, [51]⟩,
-      .forS [] [ .generic ⟨.vget, [97]⟩, .generic ⟨.number, [50]⟩, .generic ⟨.general, [37]⟩,
-                 .ifS [[.generic ⟨.general, [43]⟩], [.generic ⟨.general, [45]⟩, .brk .forS]] ],
+      .forS [] [ .generic ⟨.general, [110]⟩, .generic ⟨.number, [50]⟩, .generic ⟨.general, [37]⟩,
+                 .ifS [[.generic ⟨.general, [43]⟩], [.generic ⟨.general, [45]⟩, .brk .forS]],
+                 .generic ⟨.general, [58]⟩, .generic ⟨.general, [44]⟩ ],
       .whileS (some [.generic ⟨.vget, [97]⟩]) [.generic ⟨.vget, [97]⟩, .generic ⟨.general, [8249]⟩, .generic ⟨.vset, [97]⟩] ] := by
   decide +kernel
 
 /-- how much of the current element table the parametric element lemma covers -/
 theorem table_coverage : (Gen.elements.filter elemOK).length = 237 := by decide +kernel
+
+/-- every hand-written template of the closed core (`: D $ _ ^ W ! ? n £ ¥ , … ₴ w " d ¬ u ₀ ₁`) is, in the
+    regenerated element table, exactly the template the simulation lemmas were proved for -/
+theorem core_templates_as_expected :
+    coreKeys.all (fun c => match lookupElem Gen.elements [c] with
+      | some e => coreEntryOK [c] e
+      | Option.none => false) = true := by decide +kernel
 
 end Vy.Sem
